@@ -56,6 +56,32 @@ func vsAttrAll(m *sdp.MediaDescription, key string) []string {
 	return out
 }
 
+// vsRidsSend lists the rids a section announces for sending, in order.
+func vsRidsSend(m *sdp.MediaDescription) []string {
+	out := []string{}
+	for _, v := range vsAttrAll(m, "rid") {
+		f := strings.Fields(v)
+		if len(f) >= 2 && f[1] == "send" {
+			out = append(out, f[0])
+		}
+	}
+	return out
+}
+
+// vsSimSend lists the send parts of the section's a=simulcast attributes ("q;h;f").
+func vsSimSend(m *sdp.MediaDescription) []string {
+	out := []string{}
+	for _, v := range vsAttrAll(m, "simulcast") {
+		f := strings.Fields(v)
+		for i := 0; i+1 < len(f); i += 2 {
+			if f[i] == "send" {
+				out = append(out, f[i+1])
+			}
+		}
+	}
+	return out
+}
+
 func vsHas(m *sdp.MediaDescription, key string) bool { return len(vsAttrAll(m, key)) > 0 }
 
 func vsAtoi(s string) int {
@@ -193,6 +219,7 @@ func vsProject(text string) (vkM, bool) {
 			"ufrag": vsHas(m, "ice-ufrag") || sessUfrag, "pwd": vsHas(m, "ice-pwd") || sessPwd, "fp": vsHas(m, "fingerprint"),
 			"pts": pts, "nfmt": len(fmts), "rtpmap": rtpmaps, "fmtp": fmtps, "fb": fbs, "ext": exts,
 			"msid": vsAttrAll(m, "msid"), "ssrcs": ssrcs, "groups": groups, "rids": vsAttrAll(m, "rid"),
+			"simulcast": vsAttrAll(m, "simulcast"), "ridsSend": vsRidsSend(m), "simSend": vsSimSend(m),
 			"cls": "", "age": "",
 		})
 	}
@@ -250,7 +277,7 @@ func (p *vsPeer) transceivers() []vkM {
 		}
 		rec := vkM{
 			"id": id, "kind": tr.Kind().String(), "dir": tr.Direction().String(), "mid": tr.Mid(),
-			"sending": false, "stream": "", "track": "", "ssrc": "0", "rtx": "0", "fec": "0", "nenc": 0,
+			"sending": false, "stream": "", "track": "", "ssrc": "0", "rtx": "0", "fec": "0", "nenc": 0, "encs": []vkM{},
 		}
 		if s := tr.Sender(); s != nil {
 			if trk := s.Track(); trk != nil {
@@ -265,6 +292,12 @@ func (p *vsPeer) transceivers() []vkM {
 				rec["rtx"] = strconv.FormatUint(uint64(enc[0].RTX.SSRC), 10)
 				rec["fec"] = strconv.FormatUint(uint64(enc[0].FEC.SSRC), 10)
 			}
+			encs := []vkM{}
+			for _, e := range enc { // every encoding of a simulcast sender
+				encs = append(encs, vkM{"ssrc": strconv.FormatUint(uint64(e.SSRC), 10), "rtx": strconv.FormatUint(uint64(e.RTX.SSRC), 10),
+					"fec": strconv.FormatUint(uint64(e.FEC.SSRC), 10), "rid": e.RID})
+			}
+			rec["encs"] = encs
 		}
 		out = append(out, rec)
 	}
@@ -475,6 +508,28 @@ func (r *vsRun) step(st vsStep) {
 		_, err := p.pc.AddTrack(r.newTrack(p, st.Kind))
 		_ = err
 		desc = "addTrack:" + st.Kind
+	case "addSimulcast": // one sender, st.N encodings of the same track (rids q, h, f)
+		p.tracks++
+		id, stream := fmt.Sprintf("%s-track-%d", p.name, p.tracks), fmt.Sprintf("%s-stream-%d", p.name, p.tracks)
+		rids := []string{"q", "h", "f"}
+		n := st.N
+		if n < 2 || n > 3 {
+			n = 3
+		}
+		first, err := NewTrackLocalStaticSample(RTPCodecCapability{MimeType: MimeTypeVP8}, id, stream, WithRTPStreamID(rids[0]))
+		if err != nil {
+			r.t.Fatal(err)
+		}
+		if sender, err := p.pc.AddTrack(first); err == nil {
+			for _, rid := range rids[1:n] {
+				more, e := NewTrackLocalStaticSample(RTPCodecCapability{MimeType: MimeTypeVP8}, id, stream, WithRTPStreamID(rid))
+				if e != nil {
+					r.t.Fatal(e)
+				}
+				_ = sender.AddEncoding(more)
+			}
+		}
+		desc = fmt.Sprintf("addSimulcast:%d", n)
 	case "removeTrack":
 		n := 0
 		for _, s := range p.pc.GetSenders() {
